@@ -63,6 +63,11 @@ def fmtSeg (entries : List Entry) (oth : List String) : String :=
   let rets := sortByKey (fun (p : Nat × Res × Nat) => p.1) rets
   s!"tx={joinOrDash (txs.map (fun p => s!"{p.1}.{p.2}.="))} ret={joinOrDash (rets.map (fun p => s!"{p.1}.{fmtRes p.2.1}.{p.2.2}"))} oth={joinOrDash oth}"
 
+/-- The request has not been transmitted (it waits for its NSTART slot, or ended before getting one): the harness injects no response for it
+    (a response cannot precede the request; its message ID is not even known). -/
+def queued (s : State) (id : Nat) : Bool :=
+  !s.log.any (fun e => match e with | .tx i _ _ _ => i == id | _ => false)
+
 /-- Model events an op stands for in state `s` (sleep is expanded against the state). -/
 def opEvents (P : Params) (s : State) : Op → List Model.Retransmit.Ev
   | .cfg _ _ _ => []
@@ -71,13 +76,13 @@ def opEvents (P : Params) (s : State) : Op → List Model.Retransmit.Ev
   | .tick a => [.tick a]
   | .ack id => [.recvMid id .ack]
   | .rst id => [.recvMid id .rst]
-  | .pig id tag => [.recvMid id (.pig tag)]
-  | .resp id _ tag => [.resp id tag]
+  | .pig id tag => if queued s id then [] else [.recvMid id (.pig tag)]
+  | .resp id _ tag => if queued s id then [] else [.resp id tag]
   | .cancel id => [.cancel id .ctx]
   | .mut id => [.mut id (2 * id + 1)]
 
-def opOther : Op → List String
-  | .resp _ true _ => ["ack.0"]     -- a confirmable separate response is acknowledged
+def opOther (s : State) : Op → List String
+  | .resp id true _ => if queued s id then [] else ["ack.0"]     -- a confirmable separate response is acknowledged
   | _ => []
 
 def model (line : String) : String :=
@@ -88,7 +93,7 @@ def model (line : String) : String :=
       let s := acc.1
       let s' := Model.Retransmit.runFrom P s (opEvents P s op)
       let added := s'.log.take (s'.log.length - s.log.length)
-      (s', acc.2 ++ [fmtSeg added (opOther op)])) (Model.Retransmit.init, ["tx=- ret=- oth=-"])
+      (s', acc.2 ++ [fmtSeg added (opOther s op)])) (Model.Retransmit.init, ["tx=- ret=- oth=-"])
     " | ".intercalate segs
   | _ => "bad-op"
 
